@@ -573,7 +573,13 @@ func (fr *Frame) applyContract(fc *FuncContract, key string, sig *types.Signatur
 		g.sc.Assume(fmt.Sprintf("(>= %s (+ %s %d))", nb.S, g.curBase, g.allocN+1))
 		g.curBase = nb.S
 	}
+	// locations reached through a result (fields of a returned object) are havoced once the result exists
+	var viaResult []Expr
 	for _, loc := range fc.Modifies {
+		if mentionsResult(loc, fc, sig) {
+			viaResult = append(viaResult, loc)
+			continue
+		}
 		fr.havocLoc(env, loc, post)
 	}
 	// results
@@ -598,6 +604,9 @@ func (fr *Frame) applyContract(fc *FuncContract, key string, sig *types.Signatur
 		}
 	}
 	env.st = post
+	for _, loc := range viaResult {
+		fr.havocLoc(env, loc, post)
+	}
 	for _, en := range fc.Ensures {
 		g.sc.Assume(implies(c.reach, env.trBool(en.E)))
 	}
@@ -609,6 +618,30 @@ func (fr *Frame) applyContract(fc *FuncContract, key string, sig *types.Signatur
 	}
 	fr.anchor("after call "+site, c, res)
 	return res
+}
+
+// mentionsResult reports whether a modifies location is reached through a result of the function.
+func mentionsResult(loc Expr, fc *FuncContract, sig *types.Signature) bool {
+	names := map[string]bool{"result": true}
+	for i := 0; i < sig.Results().Len(); i++ {
+		n := sig.Results().At(i).Name()
+		if i < len(fc.ResultNames) && fc.ResultNames[i] != "" {
+			n = fc.ResultNames[i]
+		}
+		if n != "" && n != "_" {
+			names[n] = true
+		}
+	}
+	for i, p := range fc.ParamNames {
+		_ = i
+		delete(names, p) // a parameter of the same name wins
+	}
+	for _, id := range exprIdents(loc) {
+		if names[id] {
+			return true
+		}
+	}
+	return false
 }
 
 // anchor fires "assert/assume ... at <anchor>" clauses of the function under verification.
